@@ -182,6 +182,92 @@ def check_tensor(acc, x, dt, mode, layout, col_m, extract_diagonal=False,
               if x.ndim > 1 else x[:4].tolist()})
 
 
+def run_ds_carry(acc, task):
+  """distributed_shampoo with quantized state, all histories over {gA,gB}:
+  every stored QuantizedValue is a fixed point of dequantize -> quantize
+  (same integers, same bucket sizes, same diagonal), and a preconditioner
+  that is carried over a non-refresh step keeps its bits."""
+  import itertools
+  import jax
+  import jax.numpy as jnp
+  from mc import ds
+  from mc.lib import tree_hash
+  from precondition.quantization_utils import QuantizedValue
+  P = task["P"]
+  shapes = {"v": [3], "m": [4, 6]}
+  cfg = {"best_effort_memory_usage_reduction": True, "beta1": 0.9,
+         "preconditioning_compute_steps": P, "start_preconditioning_step": 1,
+         "graft_type": 3}
+  runner = ds.Runner(cfg, shapes, "pmap")
+  alpha = ds.grad_trees(shapes, ["gA", "gB"], (0, 4))
+  is_q = lambda x: isinstance(x, QuantizedValue)
+
+  def quantized_leaves(state):
+    out = []
+    host = jax.tree_util.tree_map(lambda x: np.asarray(x)[0], state)
+    for path, q in jax.tree_util.tree_flatten_with_path(
+        host, is_leaf=is_q)[0]:
+      if is_q(q) and q.quantized_dtype in (jnp.int8, jnp.int16):
+        out.append((jax.tree_util.keystr(path), q))
+    return out
+
+  s0 = runner.init()
+  frontier = [(s0, ())]
+  seen = {tree_hash(runner.host(s0))}
+  for _ in range(task["depth"]):
+    nxt = []
+    for s, hist in frontier:
+      for ev in ("gA", "gB"):
+        _, s2 = runner.step(s, alpha[ev])
+        h2 = hist + (ev,)
+        t = len(hist)
+        acc.transitions += 1
+        qs1 = dict(quantized_leaves(s))
+        for name, q in quantized_leaves(s2):
+          acc.states += 1
+          acc.nontrivial += 1
+          case = {"history": list(h2), "leaf": name, "interval": P,
+                  "dtype": str(jnp.dtype(q.quantized_dtype))}
+          sig = "C11|ds_carry|P%d|%s|%s" % (P, ",".join(h2), name)
+          f = q.to_float()
+          q2 = QuantizedValue.from_float_value(
+              f, q.quantized_dtype, q.extract_diagonal)
+          same = np.array_equal(np.asarray(q2.quantized),
+                                np.asarray(q.quantized)) and \
+              np.allclose(np.asarray(q2.bucket_size),
+                          np.asarray(q.bucket_size), rtol=1e-6, atol=0) and \
+              all(np.array_equal(np.asarray(a), np.asarray(b))
+                  for a, b in zip(jax.tree_util.tree_leaves(q2.diagonal),
+                                  jax.tree_util.tree_leaves(q.diagonal)))
+          if not same:
+            acc.outcome("viol_state_not_fixed_point")
+            acc.violation(sig + "|fix", "stored quantized state is not a "
+                          "fixed point of dequantize -> quantize (integers, "
+                          "bucket sizes max-abs/N or diagonal differ)", case,
+                          kf={"input_class": "regular", "kind": "ds_carry"})
+            continue
+          if "preconditioners" in name and t % P != 0:
+            a, b = qs1[name], q
+            if not all(np.array_equal(np.asarray(x), np.asarray(y)) for x, y
+                       in zip(jax.tree_util.tree_leaves(a),
+                              jax.tree_util.tree_leaves(b))):
+              acc.outcome("viol_carried_state_drifts")
+              acc.violation(sig + "|carry", "quantized preconditioner "
+                            "carried over non-refresh step %d changed" % t,
+                            case, kf={"input_class": "regular",
+                                      "kind": "ds_carry"})
+              continue
+            acc.outcome("carried_bit_identical")
+          else:
+            acc.outcome("stored_fixed_point")
+        k = tree_hash(runner.host(s2))
+        if k in seen:
+          continue
+        seen.add(k)
+        nxt.append((s2, h2))
+    frontier = nxt
+
+
 def plan(tier, seed):
   del seed
   tasks = []
@@ -225,6 +311,12 @@ def plan(tier, seed):
   for dt in ["int8", "int16"]:
     tasks.append({"name": "%s/shapes" % dt, "kind": "shapes", "dtype": dt,
                   "part": "unit_axes", "profile": {"x64": False}})
+  # the optimizer's own quantized state (int16 statistics/preconditioners,
+  # int8 momentum) under pmap: what is carried must not drift
+  for P in (2, 3):
+    tasks.append({"name": "ds_carry/P%d" % P, "kind": "ds_carry", "P": P,
+                  "depth": 3 if tier == "quick" else 4, "part": "ds_carry",
+                  "profile": {"x64": False}})
   tasks.append({"name": "passthrough", "kind": "passthrough",
                 "part": "passthrough", "profile": {"x64": False}})
   return {
@@ -307,6 +399,8 @@ def run_task(task):
         x.flat[0] = -m
         check_tensor(acc, x, dt, task["mode"], "near_overflow%s" % (shape,),
                      None, tag="m%r" % m)
+  elif task["kind"] == "ds_carry":
+    run_ds_carry(acc, task)
   elif task["kind"] == "shapes":
     # every shape of rank 1..3 over dims {1,2,3} (unit axes in every
     # position), columns at scales 2^-20 .. 2^20 with sign changes and zeros
